@@ -49,12 +49,15 @@ Definition check_rb (k : nat) (rb : res (option (@val Z) * @mem Z) * positive * 
   | _ => false
   end.
 Definition check_codebook (k : nat) : bool := check_rb k (run_build_code k).
+(* NOTE: never let the tactic unifier or the kernel convert through [run_build_code k] for a variable k
+   (it exposes a pair and then symbolically evaluates the interpreter): the lemmas below only ever
+   use it syntactically, and it is made opaque for the unifier. *)
 
 (* [vm_cast_no_check]: the computation runs once, when Qed type-checks the cast in the kernel *)
-Lemma codebook_sweep_1_15 : forallb check_codebook (seq 1 15) = true.
+Lemma codebook_sweep_1_15 : forallb (fun k => check_rb k (run_build_code k)) (seq 1 15) = true.
 Proof. vm_cast_no_check (eq_refl true). Qed.
 
-Lemma codebook_sweep_16 : check_codebook 16 = true.
+Lemma codebook_sweep_16 : check_rb 16 (run_build_code 16) = true.
 Proof. vm_cast_no_check (eq_refl true). Qed.
 
 (** N <-> Z bit operations (not in the 8.16 standard library) *)
@@ -111,10 +114,7 @@ Proof.
     cbn [Nat.add]. rewrite Nat2Z.inj_min, tz_tzZ. f_equal. lia.
 Qed.
 
-Lemma check_codebook_sound k : (1 <= k)%nat -> check_codebook k = true ->
-  exists m, fst (fst (run_build_code k)) = Ok (None, m) /\
-            tables_are k m (snd (fst (run_build_code k))) (snd (run_build_code k)) (build_code k).
-Proof. intros Hk H. unfold check_codebook in H. exact (check_sound_gen k _ Hk H). Qed.
+Global Opaque run_build_code.
 
 (** C19, code book part: for every k = 1..16 the model's code book is a Gray code book in the
     sense consumed by mzd_make_table, and the translated C code writes exactly that code book. *)
@@ -124,9 +124,10 @@ Theorem C19_codebook k : (1 <= k <= 16)%nat ->
             tables_are k m (snd (fst (run_build_code k))) (snd (run_build_code k)) (build_code k).
 Proof.
   intros Hk. split; [apply codebook_ok_all|].
-  apply check_codebook_sound; [lia|].
+  apply check_sound_gen; [lia|].
   destruct (Nat.eq_dec k 16) as [->|Hne]; [exact codebook_sweep_16|].
-  pose proof codebook_sweep_1_15 as H. rewrite forallb_forall in H. apply H. apply in_seq. lia.
+  pose proof codebook_sweep_1_15 as H. rewrite forallb_forall in H.
+  apply (H k). apply in_seq. lia.
 Qed.
 
 (** consequence for the translated m4ri_gray_code alone (it is called for every i < 2^k by the
